@@ -65,10 +65,35 @@ $(B)/net_sim: $(NETB)/marker_begin.o $(NET_LIB_OBJS) $(NET_EX_OBJS) $(NETB)/mark
 
 net: $(B)/net_sim
 
+# ---------------------------------------------------------------- call bindings generated from /repo/include
+GEN := $(B)/gen
+FORMATS := $(shell awk '$$1=="format"{print $$2}' spec/fields.def)
+BIND_SRCS := $(patsubst %,$(GEN)/bind_%.c,$(FORMATS)) $(GEN)/bind_all.c
+$(GEN)/stamp: tools/gen_bindings.py spec/fields.def $(REPO_HDRS) Makefile | dirs
+	@mkdir -p $(GEN)
+	python3 tools/gen_bindings.py $(REPO)/include spec/fields.def $(GEN) 2>$(GEN)/gen.log
+	@touch $@
+$(BIND_SRCS): $(GEN)/stamp
+
+# ---------------------------------------------------------------- rec engine (C05): same instrumented library objects as net
+RECB := $(B)/rec
+REC_BIND_OBJS := $(patsubst $(GEN)/%.c,$(RECB)/%.o,$(BIND_SRCS))
+$(RECB)/bind_%.o: $(GEN)/bind_%.c bindings/bind.h $(REPO_HDRS) | dirs
+	@mkdir -p $(RECB)
+	$(CC) -std=gnu99 -O1 -g -fsanitize=address -I$(REPO)/include -Ibindings -w -c $< -o $@
+REC_SIM_SRCS := sim/task.cc sim/driver.cc sim/symtab.cc sim/cov.cc engines/rec/rec.cc
+REC_SIM_OBJS := $(patsubst %.cc,$(RECB)/sim/%.o,$(REC_SIM_SRCS))
+$(RECB)/sim/%.o: %.cc $(wildcard sim/*.h spec/*.h bindings/*.h) Makefile | dirs
+	@mkdir -p $(dir $@)
+	$(CXX) $(SIM_CXXFLAGS) -fsanitize=address -c $< -o $@
+$(B)/rec_sim: $(NETB)/marker_begin.o $(NET_LIB_OBJS) $(NETB)/marker_end.o $(REC_BIND_OBJS) $(REC_SIM_OBJS)
+	$(CXX) -no-pie -fsanitize=address,bounds,integer-divide-by-zero -o $@ $(NETB)/marker_begin.o $(NET_LIB_OBJS) $(NETB)/marker_end.o $(REC_BIND_OBJS) $(REC_SIM_OBJS) -lm
+rec: $(B)/rec_sim
+
 dirs:
 	@mkdir -p $(B) $(NETB)/lib $(NETB)/ex $(NETB)/sim evidence replays
 
 clean:
 	rm -rf $(B)
 
-.PHONY: net dirs clean
+.PHONY: net rec dirs clean
